@@ -147,7 +147,7 @@ class UBI(Chain):
         lp=0
         if l==0 or rb>0:
             lp = lb-rb
-            M += b'\0'*lp
+            M = M+b'\0'*lp
             nb += 1
         # init generator:
         P = BytesIO(M)
